@@ -710,6 +710,16 @@ func (s *DB) getHistoricRootsAndNodes(
 			}
 		}
 	}
+	if len(candidateBlocks) > 0 {
+		// Nodes are content-addressed: a node that a child dropped can be
+		// needed again by a later version that returns to the same content,
+		// or by a version that branched off the same parent. Never delete
+		// what a retained version still reaches.
+		err = s.keepReachableBlocks(ctx, rootCacheByName, candidateRoots, candidateBlocks)
+		if err != nil {
+			return nil, nil, err
+		}
+	}
 	nodes = make([]string, 0, len(candidateBlocks))
 	for k := range candidateBlocks {
 		nodes = append(nodes, k)
@@ -719,6 +729,75 @@ func (s *DB) getHistoricRootsAndNodes(
 		roots = append(roots, k)
 	}
 	return roots, nodes, nil
+}
+
+// keepReachableBlocks removes from candidateBlocks every node that is still
+// reachable from a version that is not being deleted: this tree, its retained
+// ancestors, and every other version object in the bucket (other writers'
+// current versions and their history).
+func (s *DB) keepReachableBlocks(
+	ctx context.Context,
+	graph rootGraph,
+	candidateRoots dependentRoots,
+	candidateBlocks map[string]int,
+) error {
+	retained := []*crdt.Tree{&s.crdt}
+	load := func(name string, root *crdt.Root) error {
+		tree, err := crdt.Load(ctx, s.crdt.Config, &name, *root)
+		if err != nil {
+			return fmt.Errorf("load retained version %s: %w", name, err)
+		}
+		retained = append(retained, tree)
+		return nil
+	}
+	for name, root := range graph {
+		if _, ok := candidateRoots[name]; ok {
+			continue
+		}
+		if err := load(name, root); err != nil {
+			return err
+		}
+	}
+	// versions outside this tree's ancestry: other writers' current versions
+	// and the history behind them
+	otherNames, err := s.listRoots(ctx)
+	if err != nil {
+		return fmt.Errorf("list current versions: %w", err)
+	}
+	mergedNames, err := s.listMergedRoots(ctx)
+	if err != nil {
+		return fmt.Errorf("list merged versions: %w", err)
+	}
+	otherNames = append(otherNames, mergedNames...)
+	for _, name := range otherNames {
+		if _, ok := graph[name]; ok {
+			continue
+		}
+		root, _, err := loadRootFromAny(ctx, []mast.Persist{s.merged, s.root}, name)
+		if err != nil {
+			return fmt.Errorf("load version %s: %w", name, err)
+		}
+		if root == nil {
+			continue // moved or removed by somebody else in the meantime
+		}
+		graph[name] = root // load each only once
+		if err := load(name, root); err != nil {
+			return err
+		}
+	}
+	for _, tree := range retained {
+		err := tree.Mast.DiffLinks(ctx, nil,
+			func(_ bool, link interface{}) (bool, error) {
+				if ls, ok := link.(string); ok {
+					delete(candidateBlocks, ls)
+				}
+				return true, nil
+			})
+		if err != nil {
+			return fmt.Errorf("walk retained version: %w", err)
+		}
+	}
+	return nil
 }
 
 // IsDirty returns true if there are entries in memory that haven't been Commit()ted.
